@@ -90,6 +90,22 @@ def gen_spec(rng, depth=0, root=False):
 
 def gen_case(world, tier, prop):
   rng = world.stream('gen')
+  a = gen_one(world, tier, rng)
+  if rng.random() < 0.3:
+    # a second flag object in the same process, its steps interleaved
+    b = gen_one(world, tier, rng, faults=False)
+    steps, ia, ib = [], 0, 0
+    sa, sb = a['steps'], [dict(s, f=1) for s in b['steps']]
+    while ia < len(sa) or ib < len(sb):
+      if ib >= len(sb) or (ia < len(sa) and rng.random() < 0.5):
+        steps.append(sa[ia]); ia += 1
+      else:
+        steps.append(sb[ib]); ib += 1
+    return {'steps': steps}
+  return a
+
+
+def gen_one(world, tier, rng, faults=True):
   frng = world.stream('fault')
   spec = gen_spec(rng, root=True)
   steps = []
@@ -101,6 +117,13 @@ def gen_case(world, tier, prop):
     if r < 0.35:
       pending.append({'set': rng.randrange(10 ** 6), 'lit': gen_literal(rng),
                       'via': rng.choice(['dict', 'str'])})
+    elif r < 0.55 and rng.random() < 0.3 and any(
+        isinstance(p, str) and p.startswith('fiddler:') for p in pending + [d for st_ in steps for d in st_.get('ds', [])]):
+      # the byte-identical directive once more (anything cached by its text
+      # must not carry state from the first application)
+      prev = [p for p in pending + [d for st_ in steps for d in st_.get('ds', [])]
+              if isinstance(p, str) and p.startswith('fiddler:')]
+      pending.append(rng.choice(prev))
     elif r < 0.55:
       f = rng.choice(['fid_scale', 'fid_scale', 'fid_replace', 'fid_push'])
       if f == 'fid_scale':
@@ -125,6 +148,8 @@ def gen_case(world, tier, prop):
   if pending:
     steps.append({'op': 'parse', 'ds': pending})
   steps.append({'op': 'read'})
+  if not faults:
+    return {'steps': steps}
   if frng.random() < 0.25:
     bad = frng.choice([
         'bogus:thing', 'set:no.such.path.here=1', 'set:z=not_a_literal',
@@ -290,12 +315,19 @@ def run(case):
   def bump(d, k, n=1):
     d[k] = d.get(k, 0) + n
 
-  flag = new_flag()
-  model = None          # the model config (a real fiddle object, edited by exec)
-  queue = []            # directives parsed into the flag but not yet applied
+  class FS:   # one flag object and its model
+    def __init__(self):
+      self.flag = new_flag()
+      self.model = None   # the model config (a real fiddle object, edited by exec)
+      self.queue = []     # directives parsed into the flag but not yet applied
+  fss = {}
   applied = 0
+  if any(st.get('f') for st in case['steps']):
+    probes['two_flags'] = 1
   for idx, st in enumerate(case['steps']):
     res['steps'] += 1
+    fs = fss.setdefault(st.get('f', 0), FS())
+    flag, model, queue = fs.flag, fs.model, fs.queue
     if st['op'] == 'parse':
       ds = []
       for d in st['ds']:
@@ -368,6 +400,7 @@ def run(case):
       queue += strs
       if expect_raise is not None:
         queue.append(('BAD', expect_raise))
+      fs.model = model
       continue
     # ---- read / roundtrip: the flag now applies everything that is queued --
     bad = [q for q in queue if isinstance(q, tuple)]
@@ -390,7 +423,7 @@ def run(case):
                      f'{type(err).__name__}: {C.norm_text(str(err))[:300]}'))
       return res
     applied += len(queue)
-    queue = []
+    del queue[:]
     a, b = C.canon(model), C.canon(value)
     res['state_hashes'].append(stable_hash(a))
     if a != b:
@@ -421,7 +454,7 @@ def run(case):
                        f'step #{idx}: ' + '; '.join(C.diff(b, c))))
         return res
       bump(probes, 'config_str_roundtrips')
-      flag = flag2       # the history continues on the transported object
+      fs.flag = flag2    # the history continues on the transported object
   res['nontrivial'] = applied >= 2
   return res
 
